@@ -117,6 +117,16 @@ fn matrix(a: &Args, pat: &str) -> Vec<Vec<String>> {
             }
         }
     }
+    // the same for the request-response builders of slice / custom payloads (did not adjust before the second fix)
+    if pat == "rr" {
+        for t in ["qt=xu64_8_8", "pt=xu64_8_8"] {
+            for k in ["ar", "lr", "br", "rb", "sv", "cl", "mn"] {
+                let ck = vec![format!("{k}=0"), t.to_string()];
+                round(&ck, &vec![t.to_string()]);
+                round(&ck, &ck);
+            }
+        }
+    }
     // pairs of dimensions (which failing check is reported first), reduced domains
     let red = |xs: &'static [&'static str], k: usize| -> Vec<&'static str> {
         if xs.len() <= k { xs.to_vec() } else { let mut v = vec![xs[0]]; v.extend(xs[xs.len() - (k - 1)..].iter()); v }
@@ -237,11 +247,6 @@ fn random_kv(rng: &mut Rng, pat: &str, creator: bool, dense: u64) -> Vec<String>
             }
             tok(d.key, pick_val(rng, dom), &mut kv);
         }
-    }
-    if pat == "rr" && kv.iter().any(|t| t.starts_with("qt=x") || t.starts_with("pt=x")) {
-        // request-response builders of slice payloads do not adjust 0 to 1 (finding reqres-slice-payload-zero-limit-panics,
-        // replayed separately): keep the zero limits away from the custom payload types here
-        kv.retain(|t| !(t.ends_with("=0") && ["ar=", "lr=", "br=", "rb=", "sv=", "cl=", "mn="].iter().any(|k| t.starts_with(k))));
     }
     kv
 }
